@@ -47,6 +47,8 @@ func builtinIntrinsics() map[string]intrinsic {
 	m["@verifInt"] = scalar("u64", 64)
 	m["@verifF32"] = scalar("u32", 32)
 	m["@verifF64"] = scalar("u64", 64)
+	m["@verifF64bits"] = func(p *Path, fr *frame, pos token.Pos, args []Value) Value { return args[0] }
+	m["@verifF32bits"] = func(p *Path, fr *frame, pos token.Pos, args []Value) Value { return args[0] }
 	m["@verifF64frombits"] = func(p *Path, fr *frame, pos token.Pos, args []Value) Value { return args[0] }
 	m["@verifBool"] = func(p *Path, fr *frame, pos token.Pos, args []Value) Value {
 		t := p.newInputScalar("bool", 0)
